@@ -5,7 +5,7 @@ from .. import gen, oracles, world
 from ._tree import make
 
 COMMANDS = ["create", "createsf", "verify", "verifydh", "verifydh_co", "verifydh_ro", "diff", "info", "infosf", "flatten"]
-KINDS = ["flip", "insert", "delete", "truncate", "append"]
+KINDS = ["flip", "insert", "delete", "truncate", "append", "empty"]
 
 
 def scenario(rng, i):
